@@ -41,7 +41,7 @@ def main():
         engines=[dict(name="lean4-proof+correspondence", path="/verif/check.py", serves_properties=[c["property_id"] for c in checks],
                       kind_free_text="Lean 4 machine-checked theorems about executable models (lean/Cppcheck), tied to the code on every run by translators (source -> generated Lean/tables) and line-protocol correspondence harnesses (C++ in-process against objects built from the working tree vs compiled Lean drivers)")],
         checks=checks,
-        notes="Every check rebuilds /repo's working tree (ninja, incremental), rebuilds and audits the Lean obligations, runs the correspondence, and on any break searches for a concrete failing input. Known findings: /verif/known_findings.json.",
+        notes="Every check rebuilds /repo's working tree (ninja, incremental), rebuilds and audits the Lean obligations, runs the correspondence, and on any break searches for a concrete failing input. Known findings (kind finding / fixed, each with a specific classifier key): /verif/known_findings.json and /verif/known_findings.d/*.json. Seeded changes used to evaluate the checks: /verif/seeded/ (see DESIGN.md section 9.2/9.5). Independent audit of the theorems: /verif/audit/.",
         not_applicable=na,
     )
     json.dump(m, open(os.path.join(HERE, "MANIFEST.json"), "w"), indent=1)
